@@ -1,6 +1,7 @@
 """C11 -- ACL authorization: first match wins over the lineage, default deny."""
 import os
 from harness.common import facts as F
+from harness.c11 import translate
 
 ID = 'C11'
 HERE = os.path.dirname(os.path.abspath(__file__))
@@ -10,9 +11,17 @@ RULE = ('random lineages (depth<=6, ACL length<=6, missing/empty/callable ACLs, 
         'tuple/ALL_PERMISSIONS/empty) x principal subsets x permission; non-trivial = at least one ACE in the '
         'lineage matches principal AND permission (so the decision is not the default deny); distinct by full case')
 ASSUMPTIONS = ['ACE actions are compared with == against the Allow/Deny constants; principals and permissions are str',
-               'a callable __acl__ is modelled by the list it returns; lineage() is modelled as the __parent__ chain']
-TRUSTED = ['hand-written model coq/Model/C11.v of ACLHelper.permits / principals_allowed_by_permission (shape-pinned)',
-           'pyramid.location.lineage, is_nonstr_iter, AllPermissionsList.__contains__ (shape-pinned, modelled)']
+               'a callable __acl__ is modelled by the list it returns; lineage() is modelled as the __parent__ chain',
+               'ACLs are well-formed (every ACE a 3-tuple, permissions a str / iterable of str / ALL_PERMISSIONS): exceptions '
+               'raised on malformed ACLs are outside the translated fragment']
+TRUSTED = ['translator harness/c11/translate.py: its PRIMITIVE TABLE (which Python leaf expression / idiom / result constructor '
+           'means which primitive of coq/Model/C11_base.v) and its mechanical statement-to-term rules; the control flow of '
+           'ACLHelper.permits / principals_allowed_by_permission is NOT hand-modelled any more: it is regenerated from the '
+           'source on every run and proved equal to the reference model (C11_generated_*_is_model)',
+           'primitives of coq/Model/C11_base.v (sets as duplicate-free lists, perm_in, is_allow/is_deny, decision) as models of '
+           'the Python operations the table maps to them',
+           'pyramid.location.lineage, is_nonstr_iter, AllPermissionsList.__contains__, ACLPermitsResult/ACLAllowed/ACLDenied '
+           '(shape-pinned, modelled by hand / by the table)']
 
 PRINCIPALS = ['system.Everyone', 'system.Authenticated', 'alice', 'bob', 'g:ed']
 PERMS = ['view', 'edit', 'del']
@@ -34,6 +43,13 @@ def facts(src):
     coq = F.HEADER + ''.join('Definition %s : text := %s.\n' % (k.lower(), F.coq_text(v))
                              for k, v in sorted(vals.items()))
     summary.update(vals)
+    # the control flow of the two methods, regenerated from the source (harness/c11/translate.py)
+    gen, tproblems, tsummary = translate.translate_tree(src)
+    problems += tproblems
+    summary.update(tsummary)
+    coq += ('\n(* ---- regenerated from src/pyramid/authorization.py by harness/c11/translate.py: control flow\n'
+            '   translated mechanically, leaves through the primitive table (see that file) ---- *)\n'
+            'Require Import Verif.Model.C11_base.\n\n' + gen)
     return {'coq': coq, 'summary': summary, 'problems': problems}
 
 
@@ -151,11 +167,15 @@ def to_wire(case):
 
 
 def from_wire(case, raw):
-    if raw == [['bad']] or len(raw) != 4:
+    if raw == [['bad']] or len(raw) != 6:
         return {'model': ['MODEL-BAD', raw], 'spec': None}
-    dec, allowed, spec_granted, wf = raw
+    dec, allowed, spec_granted, wf, hdec, hallowed = raw
+    # the model that is compared with the implementation is the program REGENERATED from the source;
+    # the third spec component records whether the hand-written reference model answers the same
+    # (always 1 while C11_generated_*_is_model compile)
     model = [dec, sorted(allowed)]
-    return {'model': model, 'spec': [spec_granted, wf]}
+    same = 1 if (dec == hdec and sorted(allowed) == sorted(hallowed)) else 0
+    return {'model': model, 'spec': [spec_granted, wf, same]}
 
 
 # ------------------------------------------------------------ implementation
@@ -234,7 +254,7 @@ def spec_holds(case, obs, spec):
     presented with Everyone, is granted (checked against the implementation itself)."""
     if spec is None:
         return None
-    spec_granted, wf = spec
+    spec_granted, wf = spec[0], spec[1]
     dec, allowed = obs
     if dec and dec[0] == 'EXC':
         return False
@@ -265,10 +285,20 @@ def kinds(case, obs):
 def describe(case):
     return case
 
-TECHNIQUE = 'Coq proof (induction over lineage and ACL) on a hand-written Gallina model + extracted-model differential correspondence'
-LEVEL_TEXT = ('Machine-checked theorems, for lineages and ACLs of any size: the loop of ACLHelper.permits equals the declarative '
-              'first-matching-ACE decision (incl. which ACE decided, default deny, child-before-ancestor), and every principal in '
-              'principals_allowed_by_permission is granted when presented with Everyone. The model is tied to the code by shape pins '
-              'on the modelled functions, regenerated constants, and a differential run of the extracted model against ACLHelper.')
-LEVEL_NOTE = ('Trusted: Coq kernel; hand-written model (validated by correspondence, shape-pinned); Python harness; lineage(), '
-              'is_nonstr_iter, AllPermissionsList modelled. The consistency theorem assumes ACE actions are Allow or Deny.')
+TECHNIQUE = ('Coq proof (induction over lineage and ACL) about a Gallina program whose control flow is translated from the Python '
+             'source on every run (fail-closed ast translator, leaves through a small primitive table), proved equal to a '
+             'hand-written reference model + extracted-program differential correspondence')
+LEVEL_TEXT = ('Machine-checked theorems, for lineages and ACLs of any size, stated literally about the program regenerated from '
+              'src/pyramid/authorization.py on this run (gen_permits, gen_principals_allowed in coq/Gen/Facts_C11.v): the loop of '
+              'ACLHelper.permits equals the declarative first-matching-ACE decision (incl. which ACE decided, default deny, '
+              'child-before-ancestor), and every principal in principals_allowed_by_permission is granted when presented with '
+              'Everyone. C11_generated_permits_is_model / C11_generated_principals_allowed_is_model prove, by one induction per '
+              'loop, that the regenerated program is the hand-written reference model; a semantics-preserving rewrite of the '
+              'methods (renamed locals, `if a: if b:` vs `if a and b:`, elif vs nested if, independent tests/statements moved) '
+              'regenerates a different term and the same proofs go through, a change of meaning makes them fail. The extracted '
+              'regenerated program is run differentially against ACLHelper.')
+LEVEL_NOTE = ('Trusted: Coq kernel; the translator (mechanical control-flow rules + the primitive table in the docstring of '
+              'harness/c11/translate.py -- the table is the trusted part; anything outside subset/table is a broken tie, never a '
+              'guess); the primitives of Model/C11_base.v; Python harness; lineage(), is_nonstr_iter, AllPermissionsList, the '
+              'ACLPermitsResult classes are shape-pinned and modelled (lineage as the __parent__ chain built by the harness). '
+              'Callable ACLs are represented by the list they return. The consistency theorem assumes ACE actions are Allow or Deny.')
